@@ -872,16 +872,46 @@ fn project_column_statistics_through_expr(
         return inner_stats;
     }
 
+    // The cast of the minimum is the minimum of the casts only when the cast
+    // is monotone. Casts between a textual/binary type and anything else are
+    // not (`9 < 12` but `"9" > "12"`), nor are casts to Boolean (`-1` and `1`
+    // both become `true`, `0` becomes `false`): their bounds do not carry
+    // over at all, not even as estimates.
+    let order_class = |t: &DataType| {
+        use DataType::*;
+        match t {
+            Utf8 | LargeUtf8 | Utf8View | Binary | LargeBinary | BinaryView
+            | FixedSizeBinary(_) => 1,
+            Boolean => 2,
+            _ => 0,
+        }
+    };
+    let monotone = match (
+        inner_stats.min_value.get_value(),
+        inner_stats.max_value.get_value(),
+    ) {
+        (Some(v), _) | (_, Some(v)) => {
+            order_class(&v.data_type()) == order_class(target_type)
+        }
+        _ => false,
+    };
+    let bound = |p: &Precision<ScalarValue>| {
+        if monotone {
+            p.cast_to(target_type).unwrap_or(Precision::Absent)
+        } else {
+            Precision::Absent
+        }
+    };
+
     ColumnStatistics {
-        min_value: inner_stats
-            .min_value
-            .cast_to(target_type)
-            .unwrap_or(Precision::Absent),
-        max_value: inner_stats
-            .max_value
-            .cast_to(target_type)
-            .unwrap_or(Precision::Absent),
-        null_count: inner_stats.null_count,
+        min_value: bound(&inner_stats.min_value),
+        max_value: bound(&inner_stats.max_value),
+        // a TRY_CAST turns values it cannot convert into NULLs
+        null_count: if cast_expr.cast_options().safe {
+            inner_stats.null_count.to_inexact()
+        } else {
+            inner_stats.null_count
+        },
         distinct_count: inner_stats.distinct_count,
         sum_value: Precision::Absent,
         byte_size: Precision::Absent,
